@@ -1021,7 +1021,7 @@ def confirm_ladder_violation(chk, project, tdir, name, trace, level, what=None):
                               {"target": tdir, "dt": dt, "script": script, "reinit_flags": reinit, "native": out, "documented": want, "solver_trace": trace})
                 return
             if out.get("ret") == SUCCESS and any(abs(v - dt) > 1e-6 * dt for v in out["y"].values()):
-                chk.violation(name, what or f"Solve returned SUCCESS but advanced the state by {sorted(out['y'].values())[0]!r} instead of dt={dt}: fault script {script[:8]}...",
+                chk.violation(name, what or f"Solve returned SUCCESS but advanced component {max(out['y'], key=lambda i_: abs(out['y'][i_] - dt))} of the state by {max(out['y'].values(), key=lambda v_: abs(v_ - dt))!r} instead of dt={dt}: fault script {script[:8]}...",
                               {"target": tdir, "dt": dt, "script": script, "native": out, "solver_trace": trace})
                 return
             if out.get("ret") not in (SUCCESS, FAIL):
@@ -1117,14 +1117,16 @@ def main(pid, tier):
         "cusparse Solve has no recovery ladder (template says so) and is outside the claim",
         "PyWrapSolve is compiled with -DPYMODULE against a declaration-only pybind11 shim; Solve is stubbed to return SUCCESS / FAIL",
     ]
-    spec = {"reactions": [{"reactants": ["H2"], "products": ["H", "H"], "alpha": 1.0, "reaction_type": 100}], "network": {},
+    # a network with a temperature equation: NEQUATIONS = NSPECIES + 1, so a loop over the wrong one of the two is visible
+    spec = {"reactions": [{"reactants": ["H", "e-"], "products": ["H+", "e-", "e-"], "alpha": 1.0, "reaction_type": 100}, {"reactants": ["H+", "e-"], "products": ["H"], "alpha": 1.0, "reaction_type": 100}],
+            "network": {"cooling": ["CIC_HI"]},
             "targets": [dict(proj.TARGETS["dense"]), dict(proj.TARGETS["sparse"]), dict(proj.TARGETS["odeint"])]}
     p = proj.render("c19", spec)
     if not p.ok:
         chk.harness_error("render failed: " + str(p.meta.get("error")))
         return chk.finish()
     chk.programs = 3
-    chk.bounds = {"equations": 2, "recovery_levels": "all (as unrolled by the code itself)", "substeps_per_level": "10*level", "monolithic_fault_levels": 2 if tier == "quick" else 3,
+    chk.bounds = {"equations": "3 species + temperature", "recovery_levels": "all (as unrolled by the code itself)", "substeps_per_level": "10*level", "monolithic_fault_levels": 2 if tier == "quick" else 3,
                   "flags": "all integers", "partial_times": "all reals in [t_cur, tout)"}
     for tdir in ("cvode_dense", "cvode_sparse"):
         neq = p.macros(tdir)["NEQUATIONS"]
